@@ -5,6 +5,7 @@ for d in seeded/*/; do
   id=$(basename "$d"); prop=${id%%-*}
   extra=""
   [ "$id" = "C08-B" ] && extra="C08 C12"
+  [ "$id" = "C13-L" ] && extra="C13 C15"
   out=$(tools/seedtest.sh "$prop" "$d/patch.diff" "$d/demo_test.go" quick $extra 2>&1)
   keys=$(echo "$out" | grep -c '^  key=')
   conf=$(echo "$out" | grep -E '^(demo_without|suite_with|demo_with)=' | tr '\n' ' ')
